@@ -17,6 +17,7 @@ import (
 //	failed_reset_ends_read              ... and ends in a return
 //	retry_budget                        number of leading `true` entries of the retry schedule
 //	callers_accept_only_200             FetchPackage and fetchRepositoryIndex both return an error when StatusCode != http.StatusOK
+//	readall_error_returned              fetchRepositoryIndex returns the error of io.ReadAll whenever there is one (the condition is exactly `err != nil`)
 //	copy_error_fails_download           retrieveAndSaveFile: an error of io.Copy is what the copying step returns, and the download ends there
 //	failed_copy_removes_temp            ... after os.Remove of the temporary file
 //	copy_precedes_advertise             the copying step stands before paths.AdvertiseCachedFile
@@ -257,6 +258,63 @@ func genC20() {
 		}
 	}
 	g.def("callers_accept_only_200", "bool", b(only200), "both callers refuse every status but 200: "+where)
+
+	// fetchRepositoryIndex: b, err := io.ReadAll(res.Body); if err != nil { return nil, <error> } — the read error is
+	// returned whenever there is one (true); any other condition in front of that return (false)
+	if fd := findFunc("pkg/apk/apk/index.go", "", "fetchRepositoryIndex"); fd != nil && fd.Body != nil {
+		found := false
+		var visit func(list []ast.Stmt)
+		visit = func(list []ast.Stmt) {
+			for i, st := range list {
+				if blk, ok := st.(*ast.BlockStmt); ok {
+					visit(blk.List)
+				}
+				as, ok := st.(*ast.AssignStmt)
+				if !ok || len(as.Rhs) != 1 || len(as.Lhs) != 2 || found {
+					continue
+				}
+				ce, ok := as.Rhs[0].(*ast.CallExpr)
+				if !ok {
+					continue
+				}
+				sel, ok := ce.Fun.(*ast.SelectorExpr)
+				if !ok || sel.Sel.Name != "ReadAll" {
+					continue
+				}
+				errVar := ""
+				if id, ok := as.Lhs[1].(*ast.Ident); ok {
+					errVar = id.Name
+				}
+				if i+1 >= len(list) || errVar == "" || errVar == "_" {
+					continue
+				}
+				is, ok := list[i+1].(*ast.IfStmt)
+				if !ok {
+					continue
+				}
+				found = true
+				plain := false
+				if be, ok := is.Cond.(*ast.BinaryExpr); ok && be.Op == token.NEQ {
+					x, xok := be.X.(*ast.Ident)
+					y, yok := be.Y.(*ast.Ident)
+					plain = xok && yok && x.Name == errVar && y.Name == "nil"
+				}
+				returns := false
+				if k := len(is.Body.List); k > 0 {
+					if rs, ok := is.Body.List[k-1].(*ast.ReturnStmt); ok && len(rs.Results) > 0 {
+						id, isIdent := rs.Results[len(rs.Results)-1].(*ast.Ident)
+						returns = !isIdent || id.Name != "nil"
+					}
+				}
+				g.def("readall_error_returned", "bool", b(plain && returns),
+					fmt.Sprintf("fetchRepositoryIndex: the statement after io.ReadAll is `if %s { ..; return .., <error> }`, %s", exprText(is.Cond), g.pos(is)))
+			}
+		}
+		visit(fd.Body.List)
+		if !found {
+			fail("pkg/apk/apk/index.go: fetchRepositoryIndex: no `<b>, <err> := io.ReadAll(..)` followed by an if statement")
+		}
+	}
 
 	// ---- the cache transport's download ---------------------------------------------------
 	const crel = "pkg/apk/apk/cache.go"
